@@ -688,8 +688,14 @@ func compareRoundTrip(src *TNode, all []phys, got map[string]SnapEntry, useIgnor
 		}
 		switch n.Kind {
 		case "file":
-			if g.Data != n.Data || g.Perm != n.Perm {
-				vs = append(vs, viol("C02", fmt.Sprintf("file %q comes back with content %q perm %o, was %q perm %o", rel, g.Data, g.Perm, n.Data, n.Perm)))
+			sameData := g.Data == n.Data
+			if len(n.Data) > 64 {
+				// the snapshot keeps only a hash of files longer than 64 bytes
+				hh := sha256.Sum256([]byte(n.Data))
+				sameData = g.Hash == hex.EncodeToString(hh[:8])
+			}
+			if !sameData || g.Perm != n.Perm {
+				vs = append(vs, viol("C02", fmt.Sprintf("file %q comes back with content %q (hash %s) perm %o, was %q perm %o", rel, g.Data, g.Hash, g.Perm, n.Data, n.Perm)))
 			}
 			if (n.Mtime != 0 || n.MtimeN != 0) && g.MtimeS != round(n.Mtime, n.MtimeN) {
 				vs = append(vs, viol("C02", fmt.Sprintf("file %q comes back with mtime %d, was %d.%09d", rel, g.MtimeS, n.Mtime, n.MtimeN)))
